@@ -5,11 +5,11 @@ package c07
 
 import (
 	"bytes"
-	"reflect"
 	"encoding/binary"
 	"fmt"
 	"io"
 	"net"
+	"reflect"
 	"time"
 
 	"pgregory.net/rapid"
@@ -314,7 +314,9 @@ func entries() []entry {
 		{Name: "types.OEM_STRING.Unmarshal", Call: func(in []byte) { types.NewOEM_STRING().Unmarshal(in) }, Seeds: func() [][]byte { return marshaled(types.NewOEM_STRINGFromString("SHARE")) }},
 		{Name: "types.SMB_DATE.Unmarshal", Call: func(in []byte) { types.NewSMB_DATE().Unmarshal(in) }, Seeds: lit("\x21\x52")},
 		{Name: "types.FILETIME.Unmarshal", Call: func(in []byte) { (&types.FILETIME{}).Unmarshal(in) }, Seeds: lit("\x01\x02\x03\x04\x05\x06\x07\x08")},
-		{Name: "types.LOCKING_ANDX_RANGE32.Unmarshal", Call: func(in []byte) { (&types.LOCKING_ANDX_RANGE32{}).Unmarshal(in) }, Seeds: func() [][]byte { return marshaled(&types.LOCKING_ANDX_RANGE32{PID: 1, ByteOffset: 2, LengthInBytes: 3}) }},
+		{Name: "types.LOCKING_ANDX_RANGE32.Unmarshal", Call: func(in []byte) { (&types.LOCKING_ANDX_RANGE32{}).Unmarshal(in) }, Seeds: func() [][]byte {
+			return marshaled(&types.LOCKING_ANDX_RANGE32{PID: 1, ByteOffset: 2, LengthInBytes: 3})
+		}},
 		{Name: "types.LOCKING_ANDX_RANGE64.Unmarshal", Call: func(in []byte) { (&types.LOCKING_ANDX_RANGE64{}).Unmarshal(in) }, Seeds: func() [][]byte { return marshaled(&types.LOCKING_ANDX_RANGE64{PID: 1}) }},
 		{Name: "types.SMB_NMPIPE_STATUS.Unmarshal", Call: func(in []byte) { (&types.SMB_NMPIPE_STATUS{}).Unmarshal(in) }, Seeds: lit("\x01\x40")},
 		{Name: "types.SMB_RESUME_KEY.Unmarshal", Call: func(in []byte) { types.NewSMB_RESUME_KEY().Unmarshal(in) }, Seeds: func() [][]byte { return marshaled(rk) }},
@@ -340,7 +342,9 @@ func entries() []entry {
 					break
 				}
 			}
-		}, Seeds: func() [][]byte { return [][]byte{frame([]byte("hello")), append(frame(nil), frame(bytes.Repeat([]byte{1}, 300))...)} }},
+		}, Seeds: func() [][]byte {
+			return [][]byte{frame([]byte("hello")), append(frame(nil), frame(bytes.Repeat([]byte{1}, 300))...)}
+		}},
 		// NTLM / SPNEGO
 		{Name: "ntlm.ParseChallengeMessage", Call: func(in []byte) { ntlm.ParseChallengeMessage(in) }, Seeds: challengeSeeds},
 		{Name: "ntlm.ParseTargetInfo", Call: func(in []byte) { ntlm.ParseTargetInfo(in) }, Seeds: func() [][]byte {
@@ -388,9 +392,21 @@ func entries() []entry {
 		// UUID / GUID
 		{Name: "uuid.UUID.Unmarshal", Call: func(in []byte) { (&uuid.UUID{}).Unmarshal(in) }, Seeds: lit("\x01\x02\x03\x04\x05\x06\x17\x08\x89\x0a\x0b\x0c\x0d\x0e\x0f\x10")},
 		{Name: "uuid.UUID.FromString", Text: true, Call: func(in []byte) { (&uuid.UUID{}).FromString(string(in)) }, Seeds: lit("6ba7b810-9dad-11d1-80b4-00c04fd430c8")},
-		{Name: "uuid_v1.FromBytes/FromString", Text: true, Call: func(in []byte) { (&uuid_v1.UUIDv1{}).FromBytes(in); (&uuid_v1.UUIDv1{}).FromString(string(in)); (&uuid_v1.UUIDv1{}).Unmarshal(in) }, Seeds: lit("6ba7b810-9dad-11d1-80b4-00c04fd430c8", "\x01\x02\x03\x04\x05\x06\x17\x08\x89\x0a\x0b\x0c\x0d\x0e\x0f\x10")},
-		{Name: "uuid_v2.FromBytes/FromString", Text: true, Call: func(in []byte) { (&uuid_v2.UUIDv2{}).FromBytes(in); (&uuid_v2.UUIDv2{}).FromString(string(in)); (&uuid_v2.UUIDv2{}).Unmarshal(in) }, Seeds: lit("6ba7b810-9dad-21d1-80b4-00c04fd430c8", "\x01\x02\x03\x04\x05\x06\x27\x08\x89\x0a\x0b\x0c\x0d\x0e\x0f\x10")},
-		{Name: "uuid_v8.FromBytes/FromString", Text: true, Call: func(in []byte) { (&uuid_v8.UUIDv8{}).FromBytes(in); (&uuid_v8.UUIDv8{}).FromString(string(in)); (&uuid_v8.UUIDv8{}).Unmarshal(in) }, Seeds: lit("6ba7b810-9dad-81d1-80b4-00c04fd430c8", "\x01\x02\x03\x04\x05\x06\x87\x08\x89\x0a\x0b\x0c\x0d\x0e\x0f\x10")},
+		{Name: "uuid_v1.FromBytes/FromString", Text: true, Call: func(in []byte) {
+			(&uuid_v1.UUIDv1{}).FromBytes(in)
+			(&uuid_v1.UUIDv1{}).FromString(string(in))
+			(&uuid_v1.UUIDv1{}).Unmarshal(in)
+		}, Seeds: lit("6ba7b810-9dad-11d1-80b4-00c04fd430c8", "\x01\x02\x03\x04\x05\x06\x17\x08\x89\x0a\x0b\x0c\x0d\x0e\x0f\x10")},
+		{Name: "uuid_v2.FromBytes/FromString", Text: true, Call: func(in []byte) {
+			(&uuid_v2.UUIDv2{}).FromBytes(in)
+			(&uuid_v2.UUIDv2{}).FromString(string(in))
+			(&uuid_v2.UUIDv2{}).Unmarshal(in)
+		}, Seeds: lit("6ba7b810-9dad-21d1-80b4-00c04fd430c8", "\x01\x02\x03\x04\x05\x06\x27\x08\x89\x0a\x0b\x0c\x0d\x0e\x0f\x10")},
+		{Name: "uuid_v8.FromBytes/FromString", Text: true, Call: func(in []byte) {
+			(&uuid_v8.UUIDv8{}).FromBytes(in)
+			(&uuid_v8.UUIDv8{}).FromString(string(in))
+			(&uuid_v8.UUIDv8{}).Unmarshal(in)
+		}, Seeds: lit("6ba7b810-9dad-81d1-80b4-00c04fd430c8", "\x01\x02\x03\x04\x05\x06\x87\x08\x89\x0a\x0b\x0c\x0d\x0e\x0f\x10")},
 		{Name: "guid.FromString", Text: true, Call: func(in []byte) { guid.FromString(string(in)) }, Seeds: lit("{12345678-1234-5678-9abc-def012345678}", "12345678123456789abcdef012345678", "{0x12345678,0x1234,0x5678,{0x9a,0xbc,0xde,0xf0,0x12,0x34,0x56,0x78}}")},
 		{Name: "guid.FromFormatN", Text: true, Call: func(in []byte) { guid.FromFormatN(string(in)) }, Seeds: lit("12345678123456789abcdef012345678")},
 		{Name: "guid.FromFormatD", Text: true, Call: func(in []byte) { guid.FromFormatD(string(in)) }, Seeds: lit("12345678-1234-5678-9abc-def012345678")},
